@@ -317,10 +317,76 @@ def mem_cases():
                             yield t, bind, cells, cellbind, lab
 
 
+def struct_cases():
+    """(label, width for the lanes, binding, [trees evaluated one after the other on ONE machine]).
+    (1) two registers bound to adjacent / overlapping slices of one symbol (the state after 'mov bl, al; mov bh, ah'), used together in
+        concatenations and again alone afterwards: evaluation is a function of the state, so each step must equal its substitution;
+    (2) conditions that evaluate to a conditional between two constants, for every pair of constants incl. (0,0) and (k,k)."""
+    for w in (16, 32):
+        h = w // 2
+        p = g.ID('p', w)
+        for (l0, l1), (h0, h1) in (((0, h), (h, w)), ((0, 8), (8, 16)), ((8, 16), (16, 24)) if w == 32 else ((4, 8), (8, 12)), ((0, h), (0, h))):
+            lo, hi = g.ID('a', l1 - l0), g.ID('b', h1 - h0)
+            if (h1 - h0) != (l1 - l0):
+                continue
+            n = l1 - l0
+            bind = {lo: g.SL(p, l0, l1), hi: g.SL(p, h0, h1)}
+            cat = g.CO((lo, 0, n), (hi, n, 2 * n))
+            rev = g.CO((hi, 0, n), (lo, n, 2 * n))
+            seqs = [[cat, hi, lo], [rev, lo, hi], [g.OP('^', cat, rev), hi, lo, cat], [g.OP('+', cat, cat), g.OP('^', hi, lo)],
+                    [g.COND(cat, lo, hi), cat, hi], [g.SL(cat, 0, n), g.SL(cat, n, 2 * n), hi], [g.OP('&', rev, cat), rev, lo, hi]]
+            for k, trees in enumerate(seqs):
+                yield ('slices w=%d lo=%d:%d hi=%d:%d seq=%d' % (w, l0, l1, h0, h1, k), w, bind, trees)
+    for w in (1, 8, 32):
+        a, b, c = g.ID('a', w), g.ID('b', w), g.ID('p', w)
+        for k1, k2 in itertools.product((0, 1, 3) if w > 1 else (0, 1), repeat=2):
+            for X, Y in ((g.I(w, 1 if w == 1 else 5), g.I(w, 0 if w == 1 else 9)), (g.ID('q', w), g.OP('+', g.ID('q', w), g.I(w, 1)) if w > 1 else g.I(1, 1))):
+                # the constants are bound registers inside a nested condition / the condition itself is a register bound to c ? k1 : k2
+                yield ('cond-of-cond w=%d k=%d,%d arms=%s nested' % (w, k1, k2, X[0]), w, {a: g.I(w, k1), b: g.I(w, k2)}, [g.COND(g.COND(c, a, b), X, Y)])
+                yield ('cond-of-cond w=%d k=%d,%d arms=%s bound' % (w, k1, k2, X[0]), w, {a: g.COND(c, g.I(w, k1), g.I(w, k2))}, [g.COND(a, X, Y), g.COND(g.OP('^', a, g.I(w, k1)), X, Y)])
+
+
+def run_struct(part, label, w, bind, trees, seed, ea):
+    import re
+    m = machine(ea, bind)
+    ids = dict(lanes(w if w > 1 else 8, seed))
+    ids['p'], ids['q'] = ids['a'], ids['b']
+    if w == 1:
+        ids['p'], ids['q'] = ids['a'] & np.uint64(1), ids['b'] & np.uint64(1)
+    site = re.sub(r'\d+', 'N', label.split(' ')[0]) + ' ' + ' '.join(x for x in label.split(' ')[1:] if x.startswith(('seq', 'arms', 'nested', 'bound')))
+    for step, t in enumerate(trees):
+        part.n += 1
+        try:
+            r = m.eval_expr(irsem.from_neutral(t), {})
+            tr = irsem.to_neutral(r)
+            expect = ref_subst(t, bind)
+            bad = None
+            if irsem.width(tr) != irsem.width(t):
+                bad = ('width', 'width %d became %d' % (irsem.width(t), irsem.width(tr)))
+            else:
+                v0, v1 = irsem.ev_np(expect, ids, 0), irsem.ev_np(tr, ids, 0)
+                ne = np.nonzero(v0 != v1)[0]
+                if len(ne):
+                    i = int(ne[0])
+                    bad = ('value', 'with p=%#x q=%#x the substitution is %#x, the result %s is %#x' % (int(ids['p'][i]), int(ids['q'][i]), int(v0[i]), irsem.show(tr), int(v1[i])))
+        except Exception as ex:
+            bad = ('exception:%s' % type(ex).__name__, repr(ex)[:120])
+        if bad:
+            part.violation('kind=%s family=struct case=%s step=%d' % (bad[0], site, step),
+                           'state {%s}, evaluations %s on one machine: step %d (%s): %s' % (
+                               ', '.join('%s: %s' % (irsem.show(k_), irsem.show(v_)) for k_, v_ in bind.items()), [irsem.show(x) for x in trees[:step + 1]], step, irsem.show(t), bad[1]),
+                           {'struct': label, 'w': w}, 10 * len(trees) + step)
+            return
+    part.keys.add(core.h64(('struct', label)))
+
+
 def shard(s, ns, tier, seed):
     ea = EA()
     part = core.Part()
     k = 0
+    for i, (label, w, bind, trees) in enumerate(struct_cases()):
+        if i % ns == s:
+            run_struct(part, label, w, bind, trees, seed, ea)
     for mode, name, w, level in families(tier):
         if mode == 'mem':
             for t, bind, cells, cellbind, lab in mem_cases():
@@ -364,6 +430,14 @@ def replay(wt):
 
     def tup(x):
         return tuple(tup(i) for i in x) if isinstance(x, list) else x
+    if 'struct' in wt:
+        part = core.Part()
+        for label, w, bind, trees in struct_cases():
+            if label == wt['struct']:
+                run_struct(part, label, w, bind, trees, 0, ea)
+        if part.viols:
+            return True, '\n'.join('%s: %s' % (k, v[1]) for k, v in part.viols.items())
+        return False, 'ok'
     t = tup(wt['tree'])
     bind = {tup(k): tup(v) for k, v in wt['bind']}
     cells = [tuple(tup(c)) for c in wt['cells']] if wt.get('cells') is not None else None
